@@ -79,6 +79,8 @@ var ErrStall = errors.New("wire: peer stalls")
 
 // Conn is one endpoint.
 type Conn struct {
+	// Remote, when set, is what RemoteAddr reports (default 127.0.0.1:2000)
+	Remote net.Addr
 	Name   string
 	In     *Half
 	Out    *Half
@@ -420,7 +422,12 @@ func (a addr) String() string  { return string(a) }
 func (c *Conn) LocalAddr() net.Addr { return &net.TCPAddr{IP: net.IPv4(127, 0, 0, 1), Port: 1000} }
 
 // RemoteAddr implements net.Conn.
-func (c *Conn) RemoteAddr() net.Addr { return &net.TCPAddr{IP: net.IPv4(127, 0, 0, 1), Port: 2000} }
+func (c *Conn) RemoteAddr() net.Addr {
+	if c.Remote != nil {
+		return c.Remote
+	}
+	return &net.TCPAddr{IP: net.IPv4(127, 0, 0, 1), Port: 2000}
+}
 
 func (c *Conn) setDL(kind string, t time.Time, r, w bool) error {
 	free := sched.Cur() == nil && !sched.Aborting()
